@@ -236,6 +236,28 @@ def connect_reports_connected_only_when_established(cls, t):
         assert "hb_start" not in tr
 
 
+@lemma("C25", family=tunnel_family, params=dict(channel=Int(0, 255)), stubs=STUBS, **DYN)
+def server_disconnect_is_answered_only_for_the_own_channel(cls, t, channel):
+    """A DisconnectRequest of the server, any tunnel state and any channel id: it is answered with a
+    DisconnectResponse only if it names the open channel, which is then closed; in every case the tunnel
+    is treated as lost exactly once (reconnect or shutdown per _tunnel_lost above) and nothing else is
+    sent by this handler itself."""
+    own = t.communication_channel
+    had_task = t._reconnect_task is not None
+    t._disconnect_request_received(DisconnectRequest(communication_channel_id=channel, control_endpoint=HPAI()))
+    tr = ghost("T")
+    responses = [x[1] for x in tr if isinstance(x, tuple) and x[0] == "send" and type(x[1].body).__name__ == "DisconnectResponse"]
+    if own is not None and channel == own:
+        assert len(responses) == 1 and responses[0].body.communication_channel_id == own and tr[0] == ("send", responses[0])
+        assert t.communication_channel is None
+    else:
+        assert responses == [] and t.communication_channel == own
+    if t.auto_reconnect:
+        assert len(ghost("created")) == (0 if had_task else 1)
+    else:
+        assert states(tr) == [S.DISCONNECTED] and ghost("created") == []
+
+
 async def _connect_contract(self):
     """Contract of connect() as proved above, for use inside _reconnect."""
     ghost("T").append(("state", S.CONNECTING))
